@@ -234,6 +234,7 @@ class Consumer(object):
         self._last_committed_offset = None  # The last offset stored in Kafka
         self._stopping = False  # We're not stopping yet...
         self._shuttingdown = False  # We're not shutting down either
+        self._unlimited_retries_suspended = False  # shutdown() limits retries
         self._shutdown_d = None  # deferred for tracking shutdown request
         self._commit_looper = None  # Looping call for auto-commit
         self._commit_looper_d = None  # Deferred for running looping call
@@ -405,6 +406,7 @@ class Consumer(object):
         # but it belongs in the constructor if it is even necessary.
         # don't let commit requests retry forever and prevent shutdown
         if not self.request_retry_max_attempts:
+            self._unlimited_retries_suspended = True  # until stop()
             self.request_retry_max_attempts = 2
 
         # Create a deferred to track the shutdown
@@ -469,6 +471,10 @@ class Consumer(object):
         # Do we have an auto-commit looping call?
         if self._commit_looper is not None:
             self._commit_looper.stop()
+        if self._unlimited_retries_suspended:
+            # shutdown() limited the retries so that it could complete
+            self._unlimited_retries_suspended = False
+            self.request_retry_max_attempts = 0
         # Done stopping
         self._stopping = False
         # Keep track of state for debugging
